@@ -26,6 +26,7 @@ pub mod c19;
 pub mod c20;
 
 pub fn run(ctx: &Ctx) -> i32 {
+    crate::core::install_watchdog(ctx.prop);
     match ctx.prop {
         "C01" => c01::run(ctx),
         "C02" => c02::run(ctx),
